@@ -220,6 +220,45 @@ OrdsRow(r)  == IF Len(r.spans) = 1 THEN {"fwd"} ELSE {"fwd", "rev"}
 QueryT(q) == UNCHANGED bag
 Query(q) == QueryT(q) /\ Emit([from |-> St, act |-> "Query", args |-> <<q>>, obs |-> MatchIdx(bag, q)])
 
+(* --- further read-only calls (enabled per configuration through Ops) --------- *)
+(* a column constrained to a LIST of values (biotype=("CDS","mRNA"), also seqid  *)
+(* and name): the records whose value is one of the list, AND the rest of q      *)
+ListFields == {"seqid", "biotype", "name"}
+DomainOf(f) == CASE f = "seqid" -> Seqids [] f = "biotype" -> Biotypes [] f = "name" -> Names
+ListArgs == {fv \in ListFields \X (SUBSET (Seqids \cup Biotypes \cup Names)) :
+                fv[2] \subseteq DomainOf(fv[1]) /\ Cardinality(fv[2]) = 2}
+MatchesList(r, q, f, vs) == Matches(r, q) /\ r[f] \in vs
+QueryList(q, f, vs) ==
+    /\ UNCHANGED bag
+    /\ Emit([from |-> St, act |-> "QueryList", args |-> <<q, f, vs>>,
+             obs |-> SelectSeq([i \in DOMAIN bag |-> i], LAMBDA i : MatchesList(bag[i], q, f, vs))])
+
+(* count_distinct(seqid=, biotype=, name=): each argument is "no" (False),       *)
+(* "group" (True: a column of the result) or a value (a constraint).  The result *)
+(* has ONE row per distinct combination of the grouped columns among the         *)
+(* selected records, with the number of records carrying it; no grouped column   *)
+(* -> None                                                                       *)
+CDArgs == [seqid : {"no", "group"} \cup Seqids, biotype : {"no", "group"} \cup Biotypes,
+           name : {"no", "group"} \cup Names]
+Grouped(c) == {f \in ListFields : c[f] = "group"}
+CDSelected(b, c) == SelectSeq(b, LAMBDA r : \A f \in ListFields : c[f] \in {"no", "group"} \/ r[f] = c[f])
+KeyOf(r, c) == [f \in Grouped(c) |-> r[f]]
+CountRows(b, c) ==
+    LET sel == CDSelected(b, c)
+        keys == {KeyOf(sel[i], c) : i \in DOMAIN sel}
+    IN {[key |-> k, n |-> Cardinality({i \in DOMAIN sel : KeyOf(sel[i], c) = k})] : k \in keys}
+CountDistinct(c) ==
+    /\ UNCHANGED bag
+    /\ Emit([from |-> St, act |-> "CountDistinct", args |-> <<c>>,
+             obs |-> [none |-> Grouped(c) = {}, rows |-> IF Grouped(c) = {} THEN {} ELSE CountRows(bag, c)]])
+
+(* describe / biotype_counts: records per seqid, per biotype, per table *)
+Tally(b, f) == {[value |-> v, n |-> Cardinality({i \in DOMAIN b : b[i][f] = v})] : v \in {b[i][f] : i \in DOMAIN b}}
+Describe ==
+    /\ UNCHANGED bag
+    /\ Emit([from |-> St, act |-> "Describe", args |-> <<>>,
+             obs |-> [seqid |-> Tally(bag, "seqid"), biotype |-> Tally(bag, "biotype"), table |-> Tally(bag, "via")]])
+
 (* subset(q as keyword arguments): a new database holding the selected records *)
 SubsetT(q) == bag' = Select(bag, q)
 Subset(q) == SubsetT(q) /\ Log("Subset", <<q>>)
@@ -247,6 +286,9 @@ Next ==
     \/ \E r \in UserRecs : CanonOK(r) /\ \E ord \in OrdsUser(r) : AddFeature(UserInput(r, ord), ord)
     \/ \E r \in ExtRecs : CanonOK(r) /\ \E ord \in OrdsRow(r) : AddRow(RowOf(r, ord), ord)
     \/ \E q \in Queries : Query(q)
+    \/ "QueryList" \in Ops /\ \E q \in Queries, fv \in ListArgs : NumCats(q) = 0 /\ QueryList(q, fv[1], fv[2])
+    \/ "CountDistinct" \in Ops /\ \E c \in CDArgs : CountDistinct(c)
+    \/ "Describe" \in Ops /\ Describe
     \/ "Subset" \in Ops /\ \E q \in Queries : NumCats(q) \in SubsetCats /\ Subset(q)
     \/ "Union" \in Ops /\ \E o \in Others : Union(o)
     \/ "Update" \in Ops /\ \E o \in Others, ids \in UpdateSeqids : Update(o, ids)
@@ -317,6 +359,22 @@ SqlAgreesOnBag == \A i \in DOMAIN bag, q \in Queries : SqlWhere(bag[i], q) <=> M
 SubsetIdempotent == \A q \in Queries : Select(Select(bag, q), q) = Select(bag, q)
 QueryDistributesOverUnion ==
     \A o \in Others, q \in Queries : Select(bag \o o, q) = Select(bag, q) \o Select(o, q)
+(* laws of the read-only calls: a two-value list selects what the two single     *)
+(* values select together; the rows of count_distinct account for every selected *)
+(* record exactly once; describe's tallies each sum to the number of records     *)
+ListIsUnionOfSingles ==
+    \A q \in Queries, fv \in ListArgs :
+        (NumCats(q) = 0) =>
+            \A i \in DOMAIN bag :
+                MatchesList(bag[i], q, fv[1], fv[2]) <=>
+                    \E v \in fv[2] : Matches(bag[i], [q EXCEPT ![fv[1]] = v])
+SumN(S) == LET RECURSIVE Sum(_)
+               Sum(T) == IF T = {} THEN 0 ELSE LET x == CHOOSE y \in T : TRUE IN x.n + Sum(T \ {x})
+           IN Sum(S)
+CountRowsPartition ==
+    \A c \in CDArgs : Grouped(c) # {} => SumN(CountRows(bag, c)) = Len(CDSelected(bag, c))
+TalliesSumToLen == \A f \in {"seqid", "biotype", "via"} : SumN(Tally(bag, f)) = Len(bag)
+
 (* no operation invents or alters a record: the new list is the old one,       *)
 (* the old one extended, or a sub-list of the old one                          *)
 OnlyGrowsOrFilters ==
